@@ -404,6 +404,9 @@ pub fn run_check(ctx: &mut Ctx) {
     ctx.campaign_parallel("without-relocated-segments", n, 16, || strategy(vec![]), prop, to_json);
     let n2 = ctx.tier.pick(30_000, 600_000);
     ctx.campaign_parallel("with-relocated-segments", n2, 16, || strategy(vec!["relocated_segment".to_string()]), prop, to_json);
+    let total = ctx.evaluations.max(1);
+    let k = ctx.label_count("ends-at-top-of-memory");
+    ctx.health(total < 1000 || k * 100 / total >= 3, format!("programs that emit up to $FFFF: {}%", k * 100 / total));
 }
 
 pub fn replay(ctx: &mut Ctx, case: &serde_json::Value) {
